@@ -488,6 +488,58 @@ func main() {
 		{{0, 0}, {1, 0}, {0, 0}},
 		{{0, 0}, {0.1, 0}, {0.1, 0.1}, {0, 0.1}, {0, 0}},
 	}
+	// magnitudes at which squared distances and triangle areas overflow to +Inf (|v| > 1.3e154): nothing metric can be
+	// asked of a simplifier there, but the clauses that only count and order vertices still stand - no panic, a
+	// subsequence with both ends, the minimum count, keep-N exactly
+	r.Explore("overflow-scale", "every list of 3..5 points of the 3x3 grid scaled by {1e150, 1e155, 1e200, 1e300} x 7 simplifiers (Visvalingam keep 2..4, Visvalingam threshold 1 / MaxFloat64, Douglas-Peucker 1, radial 1): an order-preserving subsequence with both ends, never below 2, keep-N returns exactly N", mc.Opts{MaxDev: -1, Split: 2}, func(c *mc.Ctx) {
+		k := []float64{1e150, 1e155, 1e200, 1e300}[c.Choose(4)]
+		n := 3 + c.Choose(3)
+		in := make(orb.LineString, n)
+		for i := range in {
+			g := c.Choose(9)
+			in[i] = orb.Point{float64(g%3) * k, float64(g/3) * k}
+		}
+		type sm struct {
+			name string
+			run  func(orb.LineString) orb.LineString
+			keep int
+		}
+		sims := []sm{
+			{"VisvalingamKeep(2)", func(l orb.LineString) orb.LineString { return simplify.VisvalingamKeep(2).LineString(l) }, 2},
+			{"VisvalingamKeep(3)", func(l orb.LineString) orb.LineString { return simplify.VisvalingamKeep(3).LineString(l) }, 3},
+			{"VisvalingamKeep(4)", func(l orb.LineString) orb.LineString { return simplify.VisvalingamKeep(4).LineString(l) }, 4},
+			{"VisvalingamThreshold(1)", func(l orb.LineString) orb.LineString { return simplify.VisvalingamThreshold(1).LineString(l) }, 0},
+			{"VisvalingamThreshold(MaxFloat64)", func(l orb.LineString) orb.LineString { return simplify.VisvalingamThreshold(math.MaxFloat64).LineString(l) }, 0},
+			{"DouglasPeucker(1)", func(l orb.LineString) orb.LineString { return simplify.DouglasPeucker(1).LineString(l) }, 0},
+			{"Radial(1)", func(l orb.LineString) orb.LineString { return simplify.Radial(dist, 1).LineString(l) }, 0},
+		}
+		for _, s := range sims {
+			var out orb.LineString
+			var pan interface{}
+			func() {
+				defer func() { pan = recover() }()
+				out = s.run(in.Clone())
+			}()
+			if pan != nil {
+				c.Failf("overflow-panic", "%s(%v) panics: %v", s.name, in, pan)
+				continue
+			}
+			if len(out) < 2 || out[0] != in[0] || out[len(out)-1] != in[n-1] || !subseq(out, in) {
+				c.Failf("overflow-subsequence", "%s(%v) = %v is not an order-preserving subsequence keeping first and last", s.name, in, out)
+				continue
+			}
+			if s.keep > 0 {
+				want := n
+				if n > s.keep {
+					want = s.keep
+				}
+				if len(out) != want {
+					c.Failf("overflow-keep", "%s(%v) = %v has %d vertices, want exactly %d", s.name, in, out, len(out), want)
+				}
+			}
+		}
+		c.NonTrivial()
+	})
 	r.Explore("wrappers", "7 simplifiers x outer catalogue x every 3-vertex closed hole: Polygon / MultiPolygon / Collection / MultiLineString / Simplify / mvt Layers.Simplify compose the ring results and drop only rings (polygons) reduced to <= 2 points",
 		mc.Opts{MaxDev: -1, Split: 2}, func(c *mc.Ctx) {
 			sp := simpOf(c.Worker, c.Choose(len(simps)))
